@@ -17,6 +17,7 @@
 #include <atomic>
 #include <condition_variable>
 #include <cstdint>
+#include <exception>
 #include <iostream>
 #include <memory>
 #include <mutex>
@@ -251,6 +252,9 @@ namespace bloch::runtime {
         std::vector<size_t> m_frameStack;
         Value m_returnValue;
         bool m_hasReturn = false;
+        // A runtime error raised by a user destructor cannot leave the shared_ptr deleter that
+        // runs it; it is kept here and reported at the next statement boundary.
+        std::exception_ptr m_pendingDestructorError;
         std::unordered_map<const Expression*, std::vector<int>> m_measurements;
         std::unordered_map<std::string, std::unordered_map<std::string, int>> m_trackedCounts;
         bool m_echoEnabled = true;
@@ -328,6 +332,7 @@ namespace bloch::runtime {
         void initStaticFields(RuntimeClass* cls);
         void ensureGcThread();
         void requestGc();
+        void rethrowDestructorError();
         void runCycleCollector();
         void markValue(const Value& v);
         void markObject(const std::shared_ptr<Object>& obj);
